@@ -168,4 +168,37 @@ theorem chain_start_eq_of_end_eq {H : Nat → Option Nat → Nat} (hc : ¬ Colli
     · exact absurd h5 hx
 
 end ring
+/-! ### Lemmas used by the ring theorems of `Props/C08.lean` -/
+section ringHelpers
+open RingSig
+variable {q : Nat}
+
+/-- The signer's response closes the ring: `PG = u•B` at the signer's position. -/
+theorem pg_signer (hq : 0 < q) (x u c : Nat) :
+    pg q c (Scalar.sub q u (Scalar.mul q x c)) (x % q) = u % q := by
+  have h : ((pg q c (Scalar.sub q u (Scalar.mul q x c)) (x % q) : Nat) : ZMod q) = ((u % q : Nat) : ZMod q) := by
+    rw [pg_cast, Scalar.sub_cast hq, Scalar.mul_cast]
+    simp only [ZMod.natCast_mod]
+    ring
+  have := (mod_eq_iff_cast _ _).mpr h
+  rwa [Nat.mod_eq_of_lt (pg_lt hq _ _ _), Nat.mod_mod] at this
+
+theorem ph_signer (hq : 0 < q) (x u c b : Nat) :
+    ph q (some (b, x * b % q)) c (Scalar.sub q u (Scalar.mul q x c)) = some (u * b % q) := by
+  unfold ph
+  simp only [Option.map_some, Option.some.injEq]
+  have h : (((Scalar.sub q u (Scalar.mul q x c) * b % q + c * (x * b % q) % q) % q : Nat) : ZMod q)
+      = ((u * b % q : Nat) : ZMod q) := by
+    simp only [ZMod.natCast_mod, Nat.cast_add, Nat.cast_mul, Scalar.sub_cast hq, Scalar.mul_cast]
+    ring
+  have := (mod_eq_iff_cast _ _).mpr h
+  rwa [Nat.mod_mod, Nat.mod_mod] at this
+
+theorem zip_keys_ne_zero {q : Nat} {ss Ls : List Nat} (hL : ∀ L ∈ Ls, (L : ZMod q) ≠ 0) :
+    ∀ x ∈ ss.zip Ls, (x.2 : ZMod q) ≠ 0 := by
+  intro x hx
+  exact hL x.2 (List.of_mem_zip hx).2
+
+end ringHelpers
+
 end Kyber.SigAlg
